@@ -32,7 +32,7 @@ def plan_C01(ctx):
 def e1_postings_iter(ctx):
     """E1: the iterator design refines Level A for every call sequence; each named deviation is caught."""
     tlc_mc(ctx, "PostingsIter", "MC_PostingsIter_%s.cfg" % ("quick" if ctx.quick else "thorough"))
-    for dev in (("StrictReach",) if ctx.quick else ("StrictReach", "NoSameChunkReset", "SkipIgnoresLocs", "OneHitLeq", "ReachOnlyLoaded", "FarSeekLoadedChunk")):
+    for dev in (("StrictReach",) if ctx.quick else ("StrictReach", "NoSameChunkReset", "SkipIgnoresLocs", "OneHitLeq", "ReachOnlyLoaded", "FarSeekLoadedChunk", "AdvancePastKeepsOneHit")):
         tlc_mc(ctx, "PostingsIter", "MC_PostingsIter_dev_%s.cfg" % dev, workers=4, expect_violation="AllInv")
 
 
